@@ -316,3 +316,49 @@ def k18(res, tier, seed, tag="k18"):
         res.broke("correspondence-error", "K18", e)
     for i in fails[:5]:
         res.broke("correspondence", "K18 " + meta[i]["func"], meta[i])
+
+
+def k21(res, tier, seed, tag="k21"):
+    """K21: hand model Model/IsimipStep3.v vs ISIMIP._step3_remove_trend (annual means, least-squares slope, trend centred on
+    the mean of the years, mapped back onto the time steps) with scipy's significance decision recorded from the same data:
+    1..8 years of unequal lengths, years in any storage order, with and without a trend, with and without the test."""
+    logging.getLogger("ibicus").setLevel(logging.CRITICAL)
+    from ibicus.debias import ISIMIP
+    import scipy.stats
+    from ibicus.utils import get_years_and_yearly_means
+    r = C.rng_for(seed, tag)
+    n = 24 if tier == "quick" else 240
+    cc = C.CoqCases(tag, ["NP", "QL", "IsimipStep3", "CorrBase", "Step1Corr"], per_file=40)
+    meta = []
+    with warnings.catch_warnings():
+        warnings.simplefilter("ignore")
+        for i in range(n):
+            ny = r.choice([1, 2, 3, 4, 6, 8]); y0 = r.randint(1950, 2090)
+            ys = sorted(r.sample(range(y0, y0 + ny + 3), ny))          # gaps between years allowed
+            years = [y for y in ys for _ in range(r.randint(1, 5))]
+            slope = r.choice([0, 0, 1, -2, 5])
+            x = [Fraction(slope * (y - y0)) + dy(r, -3, 3, 16) for y in years]
+            if i % 3 == 0:
+                p_ = list(range(len(years))); r.shuffle(p_); years = [years[k] for k in p_]; x = [x[k] for k in p_]
+            test = (i % 4 != 3)
+            d = ISIMIP.from_variable("tas", detrending_with_significance_test=test)
+            uy, am = get_years_and_yearly_means(fl(x), np.array(years))
+            pv = scipy.stats.linregress(uy, am).pvalue if len(uy) > 1 else float("nan")
+            sig = bool(pv < 0.05 and test)
+            if abs(pv - 0.05) < 1e-6: res.count("k21-skipped-at-significance-boundary"); continue
+            try:
+                out, trend = d._step3_remove_trend(fl(x), np.array(years))
+            except Exception as e:
+                res.broke("correspondence-error", "K21 implementation raised", dict(years=years, error=repr(e)[:200])); continue
+            if not np.all(np.isfinite(out)):
+                res.count("k21-skipped-nonfinite"); continue
+            tol = C.tol_for(list(out)) * 1000
+            cc.add("k21 %s %s %s %s %s %s" % ("true" if sig else "false", C.zl(years), C.ql(x), C.ql(out), C.ql(trend), C.q(tol)))
+            m = dict(func="ISIMIP._step3_remove_trend", years=years, x=[str(v) for v in x], significant=sig, significance_test=test)
+            meta.append(m); res.case(("step3", ny, sig, test, i % 3 == 0), sample=m if len(res.samples) < 5 else None)
+    fails, errors = cc.run()
+    res.components["K21 Model/IsimipStep3.v (hand model) vs ISIMIP._step3_remove_trend"] = dict(cases=len(cc.cases), disagreements=len(fails), errors=len(errors))
+    for e in errors[:3]:
+        res.broke("correspondence-error", "K21", e)
+    for i in fails[:5]:
+        res.broke("correspondence", "K21 " + meta[i]["func"], meta[i])
